@@ -168,9 +168,13 @@ func BoundarySpecials(thorough bool) []Special {
 	var l []Special
 	t := TailLen()
 	add := func(cfg Config, kind, from, to int) {
+		from = max(from, 0)
 		for a := from; a < to; a += 48 {
-			l = append(l, Special{cfg, Plan{BoundaryKind: kind, BoundaryFrom: max(a, 0), BoundaryTo: min(a+48, to), MaxOps: 1}})
+			l = append(l, Special{cfg, Plan{BoundaryKind: kind, BoundaryFrom: a, BoundaryTo: min(a+48, to), MaxOps: 1, NoModel: true}})
 		}
+		// a few objects from the middle of the window also go through the model
+		mid := (from + to) / 2
+		l = append(l, Special{cfg, Plan{BoundaryKind: kind, BoundaryFrom: mid, BoundaryTo: min(mid+6, to), MaxOps: 1}})
 	}
 	lo, hi := 1024-t-70, 1024+8
 	add(Config{VIdx: 7}, 1, lo, hi)
